@@ -453,6 +453,42 @@ def surf_f(kind, p, P):
     raise ValueError('unknown surface type ' + str(kind))
 
 
+def pullback(t4, off, s):
+    """The same file seen in the coordinates Q with x = off + s Q (s > 0): a new T4File whose surfaces are the
+    originals composed with that map (parameters transformed exactly, kind unchanged, sense unchanged).  Returns
+    None when a surface kind is not supported (QUAD, tori, surfaces carrying a TRANSFORM)."""
+    import copy
+    off = np.asarray(off, float)
+    new = copy.copy(t4)
+    new.surfs = {}
+    for sid, (kind, p, tr) in t4.surfs.items():
+        p = list(p)
+        if tr is not None:
+            return None
+        if kind in ('PLANEX', 'PLANEY', 'PLANEZ'):
+            ax = 'XYZ'.index(kind[-1])
+            q = [(p[0] - off[ax]) / s]
+        elif kind == 'PLANE':
+            n = np.array(p[:3], float)
+            q = list(n * s) + [p[3] + float(n @ off)]
+        elif kind == 'SPHERE':
+            q = list((np.array(p[:3]) - off) / s) + [p[3] / s]
+        elif kind in ('CYLX', 'CYLY', 'CYLZ'):
+            ax = 'XYZ'.index(kind[-1])
+            o2 = [off[i] for i in range(3) if i != ax]
+            q = [(p[0] - o2[0]) / s, (p[1] - o2[1]) / s, p[2] / s]
+        elif kind == 'CYL':
+            q = list((np.array(p[:3]) - off) / s) + [p[3] / s] + list(p[4:7])
+        elif kind in ('CONEX', 'CONEY', 'CONEZ'):
+            q = list((np.array(p[:3]) - off) / s) + [p[3]]
+        elif kind == 'CONE':
+            q = list((np.array(p[:3]) - off) / s) + [p[3]] + list(p[4:7])
+        else:
+            return None
+        new.surfs[sid] = (kind, q, None)
+    return new
+
+
 def surf_degree(kind):
     if kind in PLANE_TYPES:
         return 1
